@@ -6,6 +6,7 @@ import (
 	"fmt"
 	"io"
 	"io/ioutil"
+	"strings"
 
 	"github.com/gobwas/ws/wsflate"
 
@@ -297,7 +298,8 @@ func frp(c *ctx, n, k, kinds, n2 int) {
 
 // standalone UTF8Reader over a chunked source with caller buffers
 func u8r(c *ctx, p []byte, spec, bufs string) {
-	src := newChunkReader(p, spec, "eof")
+	// a spec ending in "!": the source returns its last bytes TOGETHER with io.EOF
+	src := newChunkReader(p, strings.TrimSuffix(spec, "!"), map[bool]string{true: "eofdata", false: "eof"}[strings.HasSuffix(spec, "!")])
 	u := wsutil.NewUTF8Reader(src)
 	bs := intsSpec(bufs)
 	var out []byte
@@ -325,6 +327,7 @@ func runU8R(c *ctx) {
 	i := 0
 	for a := 0; a < 256; a++ {
 		u8r(c, []byte{byte(a)}, "-", "1")
+		u8r(c, []byte{0x61, byte(a)}, "r1!", "4096")
 		for _, b := range edges {
 			i++
 			u8r(c, []byte{byte(a), b}, []string{"-", "r1"}[i%2], []string{"1", "4096"}[(i/2)%2])
@@ -343,5 +346,6 @@ func runU8R(c *ctx) {
 	for j := 0; j < n; j++ {
 		p := randUtf8ish(c, 1+c.rng.Intn(20))
 		u8r(c, p, c.randChunkSpec(len(p)), bufSpecs[c.rng.Intn(len(bufSpecs))])
+		u8r(c, p, c.randChunkSpec(len(p))+"!", bufSpecs[c.rng.Intn(len(bufSpecs))])
 	}
 }
